@@ -96,7 +96,7 @@ def callee_info(call):
             return {"name": "?", "qname": "?", "decl": None, "obj": None, "args": ch[1:], "is_member": True,
                     "external": True, "callee_expr": me}
         d = member_decl(me)
-        name = me.get("name", "?")
+        name = (d or {}).get("_alias") or me.get("name", "?")
         obj = children(me)[0] if children(me) else None
         return {"name": name, "qname": d.get("_q", name) if d else name, "decl": d, "obj": obj,
                 "args": ch[1:], "is_member": True, "external": d is None, "callee_expr": me,
